@@ -1,0 +1,49 @@
+//! Verification-only re-exports of crate-private candidate-value operations.
+//! Compiled only with the `__verif` feature; not part of the public API.
+use std::ops::Bound;
+
+use crate::ir::FieldValue;
+
+use super::{CandidateValue, Range};
+
+pub fn intersect(
+    mut a: CandidateValue<FieldValue>,
+    b: CandidateValue<FieldValue>,
+) -> CandidateValue<FieldValue> {
+    a.intersect(b);
+    a
+}
+
+pub fn normalize(mut a: CandidateValue<FieldValue>) -> CandidateValue<FieldValue> {
+    a.normalize();
+    a
+}
+
+pub fn exclude_single_value(
+    mut a: CandidateValue<FieldValue>,
+    v: &FieldValue,
+) -> CandidateValue<FieldValue> {
+    a.exclude_single_value(v);
+    a
+}
+
+pub fn range_new(
+    start: Bound<FieldValue>,
+    end: Bound<FieldValue>,
+    null_included: bool,
+) -> Range<FieldValue> {
+    Range::new(start, end, null_included)
+}
+
+pub fn range_with_start(start: Bound<FieldValue>, null_included: bool) -> Range<FieldValue> {
+    Range::with_start(start, null_included)
+}
+
+pub fn range_with_end(end: Bound<FieldValue>, null_included: bool) -> Range<FieldValue> {
+    Range::with_end(end, null_included)
+}
+
+pub fn range_intersect(mut a: Range<FieldValue>, b: Range<FieldValue>) -> Range<FieldValue> {
+    a.intersect(b);
+    a
+}
